@@ -45,14 +45,14 @@ macro_rules! ser_est {
     };
 }
 ser_est!(average::Mean); ser_est!(average::Variance); ser_est!(average::Skewness); ser_est!(average::Kurtosis);
-ser_est!(average::Moments4); ser_est!(M5); ser_est!(M6); ser_est!(M8); ser_est!(M10); ser_est!(M7); ser_est!(M12); ser_est!(average::Min); ser_est!(average::Max);
+ser_est!(average::Moments4); ser_est!(M5); ser_est!(M6); ser_est!(M8); ser_est!(M10); ser_est!(M7); ser_est!(M12); ser_est!(M13); ser_est!(average::Min); ser_est!(average::Max);
 
 macro_rules! ser_pair {
     ($t:ty) => {
         impl Ser for $t {
             const NAME: &'static str = <$t as crate::props_pair::PairEst>::NAME;
             fn fresh(_: &mut Rng) -> Self { <$t>::new() }
-            fn step(&mut self, x: f64, w: f64) { crate::props_pair::PairEst::add(self, x, w.abs()) }
+            fn step(&mut self, x: f64, w: f64) { crate::props_pair::PairEst::add(self, x, if <$t as crate::props_pair::PairEst>::NAME == "Covariance" { w } else { w.abs() }) }
             fn merge_with(&mut self, o: &Self) -> bool { Merge::merge(self, o); true }
             fn stats(&self) -> Vec<String> { crate::props_pair::PairEst::accessors(self).iter().map(|a| format!("{}={}", a.op, a.val.word())).collect() }
         }
@@ -87,8 +87,17 @@ fn finite_state<T: std::fmt::Debug>(t: &T) -> bool { floats_of(t).iter().all(|x|
 
 /// serialise, compare the tree with the model's `encode`, restore, compare bit for bit
 fn round_trip<T: Ser>(out: &mut Out, e: &T) -> Option<T> {
-    if !finite_state(e) { out.note(&format!("{}:skipped-nonfinite", T::NAME)); return None; }
     let before = words(e);
+    // a positional, non-self-describing binary format: carries every state (non-finite ones too); what comes back
+    // must be the same state bit for bit
+    let bin: Option<T> = match crate::binfmt::to_bytes(e) {
+        Ok(b) => match crate::binfmt::from_bytes::<T>(&b) {
+            Ok(r) => { out.x(words(&r) == before && r.stats() == e.stats(), || format!("{}: state restored from a positional binary serde format is {} instead of {}", T::NAME, words(&r), before)); Some(r) }
+            Err(err) => { out.x(false, || format!("{}: cannot deserialise its own output in a positional binary serde format: {} (state {})", T::NAME, err, before)); None }
+        },
+        Err(err) => { out.x(false, || format!("{}: cannot serialise in a binary serde format: {}", T::NAME, err)); None }
+    };
+    if !finite_state(e) { out.note(&format!("{}:nonfinite-binary-only", T::NAME)); return bin; }
     let js = serde_json::to_string(e).unwrap();
     out.x(words(e) == before, || format!("{}: serialising modified the estimator", T::NAME));
     let v: serde_json::Value = serde_json::from_str(&js).unwrap();
@@ -100,7 +109,8 @@ fn round_trip<T: Ser>(out: &mut Out, e: &T) -> Option<T> {
     out.t(T::NAME, "de", &words(&r), "", &toks.join(" "));
     out.x(words(&r) == before, || format!("{}: restored state {} differs from the original {} (json {})", T::NAME, words(&r), before, &js[..js.len().min(300)]));
     out.x(r.stats() == e.stats(), || format!("{}: statistics of the restored copy differ", T::NAME));
-    Some(r)
+    // the caller continues with either copy
+    if before.len() % 2 == 0 { bin.or(Some(r)) } else { Some(r) }
 }
 
 /// tokens in the order of the JSON text (serde_json::Value without preserve_order sorts keys)
@@ -146,6 +156,21 @@ fn c18_for<T: Ser>(out: &mut Out, tier: &str, rng: &mut Rng) {
             out.x(words(&a) == words(&b), || format!("{}: continuing after a round trip with counts beyond 2^53 differs", T::NAME));
         }
     }
+    // counts close to the top of u64 (2^62 and 2^63, reachable by self-merges) through both formats
+    if !T::NAME.starts_with('H') && T::NAME != "Quantile" && T::NAME != "Min" && T::NAME != "Max" && out.next_case() {
+        let mut e = T::fresh(rng);
+        for x in [1.0, 2.0, 4.0, 8.0] { e.step(x, 1.5); }
+        for round in 0..61 {
+            let c = e.clone(); if !e.merge_with(&c) { break; }
+            if round >= 58 {
+                if let Some(r) = round_trip(out, &e) {
+                    let (mut a, mut b) = (e.clone(), r);
+                    a.step(3.0, 0.5); b.step(3.0, 0.5);
+                    out.x(words(&a) == words(&b), || format!("{}: continuing after a round trip at a count of 2^{} differs", T::NAME, round + 3));
+                }
+            }
+        }
+    }
     for rep in 0..reps {
         if !out.next_case() { continue; }
         let n = if rep == 0 { 7 } else { 1 + rng.below(if T::NAME.starts_with('H') && T::NAME.len() > 3 { 30 } else { 60 }) };
@@ -158,7 +183,9 @@ fn c18_for<T: Ser>(out: &mut Out, tier: &str, rng: &mut Rng) {
             5 => { for x in xs.iter_mut() { *x = rng.normal() * 1e140; } }
             _ => {}
         }
-        let ws: Vec<f64> = (0..n).map(|_| rng.unit() * 3.0).collect();
+        let mut ws: Vec<f64> = (0..n).map(|_| rng.unit() * 3.0).collect();
+        // second coordinates exactly on a line through the first ones / all equal (degenerate pair statistics)
+        match rep % 5 { 1 => { for i in 0..n { ws[i] = xs[i]; } } 2 => { for i in 0..n { ws[i] = 3.0 - 2.0 * xs[i]; } } 3 => { for w in ws.iter_mut() { *w = 1.0; } } _ => {} }
         let base = T::fresh(rng);
         // states with decision boundaries (histograms): observations on and next to the boundaries
         let pr = base.probes();
@@ -196,7 +223,7 @@ fn c18_for<T: Ser>(out: &mut Out, tier: &str, rng: &mut Rng) {
 pub fn c18(out: &mut Out, tier: &str, rng: &mut Rng) {
     c18_for::<average::Mean>(out, tier, rng); c18_for::<average::Variance>(out, tier, rng); c18_for::<average::Skewness>(out, tier, rng);
     c18_for::<average::Kurtosis>(out, tier, rng); c18_for::<average::Moments4>(out, tier, rng); c18_for::<M5>(out, tier, rng);
-    c18_for::<M6>(out, tier, rng); c18_for::<M8>(out, tier, rng); c18_for::<M10>(out, tier, rng); c18_for::<M7>(out, tier, rng); c18_for::<M12>(out, tier, rng);
+    c18_for::<M6>(out, tier, rng); c18_for::<M8>(out, tier, rng); c18_for::<M10>(out, tier, rng); c18_for::<M7>(out, tier, rng); c18_for::<M12>(out, tier, rng); c18_for::<M13>(out, tier, rng);
     c18_for::<average::Min>(out, tier, rng); c18_for::<average::Max>(out, tier, rng); c18_for::<average::Quantile>(out, tier, rng);
     c18_for::<average::WeightedMean>(out, tier, rng); c18_for::<average::WeightedMeanWithError>(out, tier, rng); c18_for::<average::Covariance>(out, tier, rng);
     c18_for::<H1>(out, tier, rng); c18_for::<H2>(out, tier, rng); c18_for::<H4>(out, tier, rng); c18_for::<H10>(out, tier, rng); c18_for::<H7>(out, tier, rng); c18_for::<H16>(out, tier, rng); c18_for::<H17>(out, tier, rng); c18_for::<H255>(out, tier, rng); c18_for::<H100>(out, tier, rng);
@@ -305,6 +332,13 @@ pub fn c19(out: &mut Out, tier: &str, rng: &mut Rng) {
             par_case::<average::Kurtosis>(out, rng, &pool, &d, k, k, true, &mut trees);
             par_case::<average::Moments4>(out, rng, &pool, &d, k, k, false, &mut trees);
             par_case::<M6>(out, rng, &pool, &d, k, k, true, &mut trees);
+        }
+        // orders beyond twelve (binomial coefficients beyond 32 bits' factorials)
+        for n in [10usize, 200, 3000] {
+            let (d, _) = dataset_in(rng, n, 1e3, -8.0, 8.0, FAMILIES);
+            let k = (n / 5).max(1);
+            par_case::<M13>(out, rng, &pool, &d, k, k, true, &mut trees);
+            par_case::<M16>(out, rng, &pool, &d, k, k, false, &mut trees);
         }
         for blk in [2usize, 3, 50] {
             let block = shape(rng, "uniform", blk);
